@@ -537,7 +537,7 @@ fn free_running_decryptor(out: &mut Out, thorough: bool) {
         (ctx, kg, cts) });
     let (ctx, kg, cts) = match built { Ok(x) => x, Err(_) => { out.raw("!FAIL free_running decryptor setup :: building ciphertexts of sizes 2..14 panicked # free-running"); return; } };
     let reference: Vec<Vec<u64>> = cts.iter().map(|c| Decryptor::new(ctx.clone(), kg.secret_key().clone()).decrypt_new(c).data().clone()).collect();
-    let rounds = if thorough { 200 } else { 40 };
+    let rounds = if thorough { 2000 } else { 300 };
     let (mut bad, mut panics) = (0usize, 0usize);
     for round in 0..rounds {
         let dec = Decryptor::new(ctx.clone(), kg.secret_key().clone());      // fresh cache every round
